@@ -13,7 +13,7 @@ From stdpp Require Import gmap numbers list.
 From Coq Require Import ZArith.
 Require Import Model.Bytes Model.Bank Model.Hashes Model.Merkle Model.System.
 Require Model.L1 Model.L2.
-Require Import Proofs.MerkleProofs Proofs.C03Binding Proofs.C04Proofs Proofs.C08Proofs Proofs.C08Drain.
+Require Import Proofs.MerkleProofs Proofs.C03Binding Proofs.C04Proofs Proofs.C08Proofs Proofs.C08Drain Proofs.C08Schedule.
 
 (* After ANY system history from fresh states, for every L1 denom d with L2 denom
    d' = l2_denom bridge d:
@@ -64,6 +64,34 @@ Theorem C08_drain_claim : ∀ (c : scfg) (s0 : sys) (h : list smsg) (e : L1.env)
   (sys_step c s (SClaim e sender idx m lo hi v bh)).2 = true ∨ denom_collision c ∨ Collision (L1.hash (c1 c)).
 Proof. exact c08_drain_claim_g. Qed.
 
+(* Drain, claim phase as a schedule.  From ANY state reachable from genesis in which output idx
+   commits honestly to the recorded events (lo,hi] and is final at e: running the claim steps of
+   a duplicate-free list ms of claimable sequences in that range ([claimable]: recorded, unpaid,
+   positive amount, L1-valid recipient), in ANY order, makes EVERY step Ok; afterwards every one
+   of them is rejected, whatever the submission (exactly once); L2 is untouched; the solvency
+   equation holds; and if ms contained every claimable sequence, every record that is still
+   unpaid is an excluded one (zero amount, or a recipient that is not an L1 address - DESIGN
+   section 7), so that escrow = supply2 + unrelayed deposits + donations + sum of excluded
+   records.  Or a denom / hash collision is exhibited. *)
+Theorem C08_drain_claims : ∀ (c : scfg) (s0 : sys) (e : L1.env) (sender : bytes) (idx lo hi v : N) (bh : bytes)
+    (h : list smsg) (ms : list N),
+  genesis c s0 → L2.resolve (c2 c) [] = None → (∀ y, length (L1.hash (c1 c) y) = 32%nat) →
+  (1 ≤ bid c < 18446744073709551616)%N → is_Some (L1.resolve (c1 c) sender) → (1 ≤ idx)%N → length bh = 32%nat →
+  let s := sys_run c s0 h in
+  NoDup ms → committed_final c s e idx lo hi v bh → (L2.next_l2 (l2 s) ≤ 18446744073709551616)%N →
+  (∀ m, m ∈ ms → claimable c s m ∧ (lo < m ≤ hi)%N) →
+  let s' := sys_run c s (claim_steps e sender idx lo hi v bh ms) in
+  (Forall (λ b, b = true) (sys_oks c s (claim_steps e sender idx lo hi v bh ms)) ∧
+   (∀ m e' sender' idx' lo' hi' v' bh', m ∈ ms →
+      (sys_step c s' (SClaim e' sender' idx' m lo' hi' v' bh')).2 = false) ∧
+   l2 s' = l2 s ∧
+   (∀ d, solvent c s' d ∨ denom_collision c) ∧
+   ((∀ m, claimable c s m → m ∈ ms) →
+    ∀ w, w ∈ L2.wlog (l2 s') → L2.w_seq w ∉ paid s' →
+         ¬ ((0 < L2.w_amt w)%Z ∧ is_Some (L1.resolve (c1 c) (L2.w_to w))))) ∨
+  denom_collision c ∨ Collision (L1.hash (c1 c)).
+Proof. exact c08_drain_claims. Qed.
+
 (* Conservation of combined holdings.  After ANY system history from fresh states: what is held
    of d on L1 outside the escrow (sum of all L1 balances of d minus the escrow's), plus the L2
    supply of the derived denom, plus the value in flight (unrelayed deposits, unpaid
@@ -80,4 +108,5 @@ Print Assumptions C08_solvency_invariant.
 Print Assumptions C08_invariant_step.
 Print Assumptions C08_drain_funded.
 Print Assumptions C08_drain_claim.
+Print Assumptions C08_drain_claims.
 Print Assumptions C08_holdings_conserved.
